@@ -62,24 +62,6 @@ theorem startsWith_mono : (p s t : Str) → startsWith p s = true → startsWith
     simp only [List.cons_append, startsWith_cons, Bool.and_eq_true, decide_eq_true_eq] at h ⊢
     exact ⟨h.1, startsWith_mono p s t h.2⟩
 
-theorem hasU3000_left : (x y : Str) → hasU3000 (x ++ y) = false → hasU3000 x = false
-  | [], y, _ => rfl
-  | c :: x, y, h => by
-    rw [List.cons_append, hasU3000_cons, Bool.or_eq_false_iff] at h
-    rw [hasU3000_cons, Bool.or_eq_false_iff]
-    refine ⟨?_, hasU3000_left x y h.2⟩
-    cases hs : startsWith unicode3000 (c :: x) with
-    | false => rfl
-    | true =>
-      have := startsWith_mono unicode3000 (c :: x) y hs
-      rw [List.cons_append, h.1] at this; cases this
-
-theorem hasU3000_right : (x y : Str) → hasU3000 (x ++ y) = false → hasU3000 y = false
-  | [], y, h => h
-  | c :: x, y, h => by
-    rw [List.cons_append, hasU3000_cons, Bool.or_eq_false_iff] at h
-    exact hasU3000_right x y h.2
-
 theorem kwStart_mono (s t : Str) (h : kwStart s = true) : kwStart (s ++ t) = true := by
   simp only [kwStart, Bool.or_eq_true] at h ⊢
   rcases h with (((h | h) | h) | h) | h
@@ -126,34 +108,25 @@ theorem termCharsGlob_stop (rest : Str) (h : globStop rest = true) : termCharsGl
     simp [invalidStart_cons, h1, h2, h3, h4, h6, h7]
 
 theorem termCharsGlob_raw : (r rest : Str) → r.all (fun c => isMidChar c || isGlobChar c) = true →
-    hasU3000 r = false → globStop rest = true → termCharsGlob (r ++ rest) = (r, rest)
-  | [], rest, _, _, hr => termCharsGlob_stop rest hr
-  | c :: r, rest, hm, hu, hr => by
+    globStop rest = true → termCharsGlob (r ++ rest) = (r, rest)
+  | [], rest, _, hr => termCharsGlob_stop rest hr
+  | c :: r, rest, hm, hr => by
     simp only [List.all_cons, Bool.and_eq_true] at hm
-    rw [hasU3000_cons, Bool.or_eq_false_iff] at hu
     have hc : c ≠ '\\' := by
       intro e; subst e; exact absurd hm.1 (by decide)
-    have ih := termCharsGlob_raw r rest hm.2 hu.2 hr
+    have ih := termCharsGlob_raw r rest hm.2 hr
     rw [List.cons_append, termCharsGlob_cons c _ hc, ih]
     have hcond : (!invalidStart (c :: (r ++ rest)) || c == '-' || c == '+' || c == '=' || c == '*' || c == '?') = true := by
       have hm1 := hm.1
       simp only [isMidChar, isGlobChar, Bool.or_eq_true, Bool.not_eq_true'] at hm1
       rcases hm1 with (((h | h) | h) | h) | (h | h)
-      · have : startsWith unicode3000 (c :: (r ++ rest)) = false := by
-          cases hs : startsWith unicode3000 (c :: (r ++ rest)) with
-          | false => rfl
-          | true =>
-            have := startsWith_append unicode3000 (c :: r) rest unicode3000_plain (globStop_termStop hr)
-              (by simpa using hs)
-            rw [hu.1] at this; cases this
-        simp [invalidStart_cons, h, this]
+      · simp [invalidStart_cons, h]
       · simp [h]
       · simp [h]
       · simp [h]
       · simp [h]
       · simp [h]
     simp [hcond]
-
 
 /-! ### the pieces of a raw wildcard -/
 
@@ -189,34 +162,25 @@ theorem dropWhile_nil_noGlob : (w : Str) → w.dropWhile notGlob = [] → w.any 
     · simp [hc] at h
 
 /-- the facts about `w = c0 :: t` the proofs below share -/
-structure WParts (c0 : Char) (t rest : Str) : Prop where
+structure WParts (c0 : Char) (t : Str) : Prop where
   nbs : c0 ≠ '\\'
   tail : t.all (fun c => isMidChar c || isGlobChar c) = true
-  noU : startsWith unicode3000 (c0 :: (t ++ rest)) = false
-  noUt : hasU3000 t = false
   first : isInvalidStartChar c0 = false ∨ isGlobChar c0 = true
 
-theorem wparts (c0 : Char) (t rest : Str) (hraw : rawGlobChars (c0 :: t) = true) (hu : hasU3000 (c0 :: t) = false)
-    (hr : termStop rest = true) : WParts c0 t rest := by
+theorem wparts (c0 : Char) (t : Str) (hraw : rawGlobChars (c0 :: t) = true) : WParts c0 t := by
   simp only [rawGlobChars, Bool.and_eq_true, Bool.or_eq_true, Bool.not_eq_true'] at hraw
-  rw [hasU3000_cons, Bool.or_eq_false_iff] at hu
-  refine ⟨?_, hraw.2, ?_, hu.2, hraw.1⟩
-  · intro e; subst e
-    cases hraw.1 with
-    | inl h => exact absurd h (by decide)
-    | inr h => exact absurd h (by decide)
-  · cases hs : startsWith unicode3000 (c0 :: (t ++ rest)) with
-    | false => rfl
-    | true =>
-      have := startsWith_append unicode3000 (c0 :: t) rest unicode3000_plain hr (by simpa using hs)
-      rw [hu.1] at this; cases this
+  refine ⟨?_, hraw.2, hraw.1⟩
+  intro e; subst e
+  cases hraw.1 with
+  | inl h => exact absurd h (by decide)
+  | inr h => exact absurd h (by decide)
 
 /-- `TERM_GLOB` reads the whole raw wildcard -/
-theorem termGlob_raw (c0 : Char) (t rest : Str) (hp : WParts c0 t rest) (hr : ItemEnd rest) :
+theorem termGlob_raw (c0 : Char) (t rest : Str) (hp : WParts c0 t) (hr : ItemEnd rest) :
     termGlob (c0 :: (t ++ rest)) = some (c0 :: t, rest) := by
   have hstart : globStart (c0 :: (t ++ rest)) = some ([c0], t ++ rest) := by
     unfold globStart
-    rw [termStartChar_cons c0 _ hp.nbs, invalidStart_cons, hp.noU]
+    rw [termStartChar_cons c0 _ hp.nbs, invalidStart_cons]
     cases hp.first with
     | inl h => simp [h]
     | inr h =>
@@ -225,11 +189,11 @@ theorem termGlob_raw (c0 : Char) (t rest : Str) (hp : WParts c0 t rest) (hr : It
       simp [hi, h]
   unfold termGlob
   rw [hstart]
-  simp [termCharsGlob_raw t rest hp.tail hp.noUt hr.globStop, hr.atTermEnd]
+  simp [termCharsGlob_raw t rest hp.tail hr.globStop, hr.atTermEnd]
 
 /-- the scan `TERM_START_CHAR ~ TERM_CHAR*` of a raw wildcard: nothing when it starts with a glob
     character, otherwise exactly its leading run of non-glob characters -/
-theorem termScan_wild (c0 : Char) (t rest : Str) (hp : WParts c0 t rest) (hu : hasU3000 (c0 :: t) = false)
+theorem termScan_wild (c0 : Char) (t rest : Str) (hp : WParts c0 t)
     (hr : termStop rest = true) :
     (isGlobChar c0 = true ∧ termScan (c0 :: (t ++ rest)) = none) ∨
     (isGlobChar c0 = false ∧
@@ -259,21 +223,18 @@ theorem termScan_wild (c0 : Char) (t rest : Str) (hp : WParts c0 t rest) (hu : h
     · simp
     · simp only [rawTermChars, hinv, Bool.not_false, Bool.true_and]
       exact takeWhile_mid t hp.tail
-    · apply hasU3000_left (c0 :: t.takeWhile notGlob) (t.dropWhile notGlob)
-      rw [List.cons_append, List.takeWhile_append_dropWhile]
-      exact hu
     · rcases (split_glob t).2 with h | ⟨g, y', h, hgl⟩
       · rw [h]; exact hr
       · rw [h]; exact termStop_glob g _ hgl
 
 /-- `value` on a raw wildcard other than `*` -/
-theorem value_wildcard (w rest : Str) (hne : w ≠ []) (hraw : rawGlobChars w = true) (hu : hasU3000 w = false)
+theorem value_wildcard (w rest : Str) (hne : w ≠ []) (hraw : rawGlobChars w = true)
     (hgk : (w.any isGlobChar || kwStart w) = true) (hps : prefixShape w = false) (hstar : w ≠ ['*'])
     (hr : ItemEnd rest) : value (w ++ rest) = some (.glob w, rest) := by
   cases w with
   | nil => exact absurd rfl hne
   | cons c0 t =>
-    have hp := wparts c0 t rest hraw hu hr.termStop
+    have hp := wparts c0 t hraw
     rw [List.cons_append]
     -- first character
     have n2 : c0 ≠ '"' := by
@@ -314,7 +275,7 @@ theorem value_wildcard (w rest : Str) (hne : w ≠ []) (hraw : rawGlobChars w = 
       · exact starValue_ne c0 _ e
     -- the scan of the leading run
     have a36 : termPrefix (c0 :: (t ++ rest)) = none ∧ termValue (c0 :: (t ++ rest)) = none := by
-      rcases termScan_wild c0 t rest hp hu hr.termStop with ⟨hg, hs⟩ | ⟨hg, hs⟩
+      rcases termScan_wild c0 t rest hp hr.termStop with ⟨hg, hs⟩ | ⟨hg, hs⟩
       · refine ⟨by simp [termPrefix, hs], ?_⟩
         unfold termValue term
         rw [hs]
@@ -385,14 +346,14 @@ theorem matchall_star_ne (d : Char) (r : Str) (h : d ≠ ':') : matchall ('*' ::
 
 /-- nothing comes before the clause when a default-field wildcard is an element of a query -/
 theorem wildcard_default_front (w rest : Str) (hne : w ≠ []) (hraw : rawGlobChars w = true)
-    (hu : hasU3000 w = false) (hstar : w ≠ ['*']) (hk : kwStart w = false) (hq : qmarkAfterPlain w = false)
+    (hstar : w ≠ ['*']) (hk : kwStart w = false) (hq : qmarkAfterPlain w = false)
     (hgk : (w.any isGlobChar || kwStart w) = true) (hr : ItemEnd rest) :
     matchall (w ++ rest) = none ∧ field (w ++ rest) = none ∧ multiterm (w ++ rest) = none ∧
     modifiers (w ++ rest) = none ∧ skipWs (w ++ rest) = w ++ rest := by
   cases w with
   | nil => exact absurd rfl hne
   | cons c0 t =>
-    have hp := wparts c0 t rest hraw hu hr.termStop
+    have hp := wparts c0 t hraw
     rw [List.cons_append]
     have nplus : c0 ≠ '+' := by
       intro e; subst e
@@ -430,7 +391,7 @@ theorem wildcard_default_front (w rest : Str) (hne : w ≠ []) (hraw : rawGlobCh
       · exact matchall_ne c0 _ e
     refine ⟨hmatch, ?_, ?_, modifiers_none_of c0 _ nplus nminus hnot, skipWs_head c0 _ hws⟩
     · -- field
-      rcases termScan_wild c0 t rest hp hu hr.termStop with ⟨hg, hs⟩ | ⟨hg, hs⟩
+      rcases termScan_wild c0 t rest hp hr.termStop with ⟨hg, hs⟩ | ⟨hg, hs⟩
       · apply field_none_of_term_none
         unfold term; rw [hs]; by_cases hnk : noKeyword (c0 :: (t ++ rest)) = true <;> simp [hnk]
       · have hy : (c0 :: t).dropWhile notGlob = t.dropWhile notGlob := by
@@ -451,7 +412,7 @@ theorem wildcard_default_front (w rest : Str) (hne : w ≠ []) (hraw : rawGlobCh
           simp only [List.cons.injEq] at e
           rw [e.1] at hgl; exact absurd hgl (by decide)
     · -- multiterm
-      rcases termScan_wild c0 t rest hp hu hr.termStop with ⟨hg, hs⟩ | ⟨hg, hs⟩
+      rcases termScan_wild c0 t rest hp hr.termStop with ⟨hg, hs⟩ | ⟨hg, hs⟩
       · apply multiterm_none_of_term_none
         unfold term; rw [hs]; by_cases hnk : noKeyword (c0 :: (t ++ rest)) = true <;> simp [hnk]
       · have hy : (c0 :: t).dropWhile notGlob = t.dropWhile notGlob := by
@@ -482,7 +443,7 @@ theorem wildcard_default_front (w rest : Str) (hne : w ≠ []) (hraw : rawGlobCh
 theorem leafGood_wildcard (F : FloatLib) (a w : Str) (h : NFLeaf F (.wildcard a w) = true) :
     LeafGood F (.wildcard a w) := by
   simp only [NFLeaf, wildcardOK, Bool.and_eq_true, Bool.not_eq_true'] at h
-  obtain ⟨ha, ⟨⟨⟨⟨⟨hne, hraw⟩, hu⟩, hgk⟩, hps⟩, hdef⟩⟩ := h
+  obtain ⟨ha, ⟨⟨⟨⟨hne, hraw⟩, hgk⟩, hps⟩, hdef⟩⟩ := h
   have hne' : w ≠ [] := by intro e; subst e; simp at hne
   have hL : (Leaf.wildcard a w).toLucene F = attrPrefix a ++ w := rfl
   have hunesc : unescape w = w := unescape_noBackslash w (rawGlob_noBackslash w hraw)
@@ -513,7 +474,7 @@ theorem leafGood_wildcard (F : FloatLib) (a w : Str) (h : NFLeaf F (.wildcard a 
     · simp [visitValue, had, unescape_attr a ha]
   · refine leafGood_attr F _ a w (.glob w) hL ha ?_ hhead hne' ?_ ?_ ?_
     · intro rest hr
-      exact value_wildcard w rest hne' hraw hu hgk hps hstar hr
+      exact value_wildcard w rest hne' hraw hgk hps hstar hr
     · intro hd rest hr
       have hk : kwStart w = false := by
         cases hk : kwStart w with
@@ -523,7 +484,7 @@ theorem leafGood_wildcard (F : FloatLib) (a w : Str) (h : NFLeaf F (.wildcard a 
         cases hq : qmarkAfterPlain w with
         | false => rfl
         | true => simp [hd, hq] at hdef
-      obtain ⟨h1, h2, h3, _, _⟩ := wildcard_default_front w rest hne' hraw hu hstar hk hq hgk hr
+      obtain ⟨h1, h2, h3, _, _⟩ := wildcard_default_front w rest hne' hraw hstar hk hq hgk hr
       exact ⟨h1, h2, h3⟩
     · intro hd rest hr
       have hk : kwStart w = false := by
@@ -534,7 +495,7 @@ theorem leafGood_wildcard (F : FloatLib) (a w : Str) (h : NFLeaf F (.wildcard a 
         cases hq : qmarkAfterPlain w with
         | false => rfl
         | true => simp [hd, hq] at hdef
-      exact (wildcard_default_front w rest hne' hraw hu hstar hk hq hgk hr).2.2.2.1
+      exact (wildcard_default_front w rest hne' hraw hstar hk hq hgk hr).2.2.2.1
     · simp [visitValue, unescape_attr a ha, hunesc]
 
 /-- every leaf in normal form is read back from its own text -/
